@@ -468,4 +468,11 @@ def rm_no_process_lifetime_results(ctx: Ctx) -> None:
     state_rule(ctx)
 
 
-RULES = [r1_errors_carry_location, r2_position_before_newline, r3_single_writer, r4_string_characters_all_tested, rb_binding_agreement, rm_no_process_lifetime_results]
+def ru_names_bound(ctx: Ctx) -> None:
+    """a local read but never bound raises NameError for every input that reaches the statement (shared rule, names.py)"""
+    from ..names import names_rule
+
+    names_rule(ctx)
+
+
+RULES = [r1_errors_carry_location, r2_position_before_newline, r3_single_writer, r4_string_characters_all_tested, rb_binding_agreement, rm_no_process_lifetime_results, ru_names_bound]
